@@ -512,5 +512,158 @@ func c20(c *ctx) {
 			r.Check(strings.HasSuffix(p, ".BuyerReceiveAddress"), "R2/CloseOrder/recipient", c.p.Pos(cs.Pos()), "pays "+p, "CloseOrder pays "+p+", expected the order's BuyerReceiveAddress")
 		}
 	}
+
+	// ------------------------------------------------------------------ R3
+	r.Rule("R3", "PAIR", "persist what you mutate: a function that changes Pool.Amount on a pool object it holds (directly or through a callee that writes the field) returns ok only after SetPool of that same object — unless its own `persist` parameter is false, which hands the duty to its caller", 3)
+	poolAmount := c.p.Field("fsm", "Pool", "Amount")
+	setPool := c.fn("fsm.(*StateMachine).SetPool")
+	getPool := c.fn("fsm.(*StateMachine).GetPool")
+	if poolAmount != nil && setPool != nil && getPool != nil {
+		var writesAmount func(f *ssa.Function, i int, depth int) bool
+		writesAmount = func(f *ssa.Function, i int, depth int) bool {
+			if f == nil || len(f.Blocks) == 0 || i >= len(f.Params) || depth > 3 {
+				return false
+			}
+			hit := false
+			derived := map[ssa.Value]bool{f.Params[i]: true}
+			for changed := true; changed; {
+				changed = false
+				instrs(f, func(in ssa.Instruction) {
+					if ph, ok := in.(*ssa.Phi); ok && !derived[ph] {
+						for _, e := range ph.Edges {
+							if derived[e] {
+								derived[ph] = true
+								changed = true
+							}
+						}
+					}
+				})
+			}
+			instrs(f, func(in ssa.Instruction) {
+				switch x := in.(type) {
+				case *ssa.Store:
+					if fa, ok := x.Addr.(*ssa.FieldAddr); ok && derived[fa.X] && fieldOfAddr(fa) == poolAmount {
+						hit = true
+					}
+				case ssa.CallInstruction:
+					if callee := x.Common().StaticCallee(); callee != nil && inCanopy(callee) && callee != f {
+						for ai, a := range x.Common().Args {
+							if derived[a] && writesAmount(callee, ai, depth+1) {
+								hit = true
+							}
+						}
+					}
+				}
+			})
+			return hit
+		}
+		nHolders := 0
+		for _, f := range c.p.Funcs {
+			if pkgShort(f) != "fsm" || isTestFile(c.p, f.Pos()) || f.Parent() != nil {
+				continue
+			}
+			if f == l.poolAdd || f == l.poolSub || f == setPool {
+				continue // the ledger primitives persist inside (C04.R4 confines raw writers)
+			}
+			// pool objects this function holds: *Pool parameters and GetPool results
+			var held []ssa.Value
+			for _, pa := range f.Params {
+				if nt := namedOf(pa.Type()); nt != nil && nt.Obj().Name() == "Pool" && nt.Obj().Pkg().Name() == "fsm" {
+					held = append(held, pa)
+				}
+			}
+			instrs(f, func(in ssa.Instruction) {
+				if ex, ok := in.(*ssa.Extract); ok && ex.Index == 0 {
+					if call, ok := ex.Tuple.(*ssa.Call); ok && callIs(call.Common(), getPool) {
+						held = append(held, ex)
+					}
+				}
+			})
+			if f.Signature.Recv() == nil || !strings.HasSuffix(f.Signature.Recv().Type().String(), "fsm.StateMachine") {
+				continue
+			}
+			// all held objects of a function are treated as one family when they meet in a phi (p = param or re-loaded)
+			family := map[ssa.Value]bool{}
+			for _, pv := range held {
+				family[pv] = true
+			}
+			cells := map[ssa.Value]bool{}
+			for changed := true; changed; {
+				changed = false
+				instrs(f, func(in ssa.Instruction) {
+					switch x := in.(type) {
+					case *ssa.Phi:
+						if !family[x] {
+							for _, e := range x.Edges {
+								if family[e] {
+									family[x] = true
+									changed = true
+								}
+							}
+						}
+					case *ssa.Store:
+						// a held object kept in a variable cell (captured by a closure)
+						if a, ok := x.Addr.(*ssa.Alloc); ok && family[x.Val] && !cells[a] {
+							cells[a] = true
+							changed = true
+						}
+					case *ssa.UnOp:
+						if cells[x.X] && !family[x] {
+							family[x] = true
+							changed = true
+						}
+					}
+				})
+			}
+			if len(family) == 0 {
+				continue
+			}
+			isMut := func(in ssa.Instruction) bool {
+				switch x := in.(type) {
+				case *ssa.Store:
+					if fa, ok := x.Addr.(*ssa.FieldAddr); ok && family[fa.X] && fieldOfAddr(fa) == poolAmount {
+						return true
+					}
+				case ssa.CallInstruction:
+					if callee := x.Common().StaticCallee(); callee != nil && inCanopy(callee) && callee != setPool {
+						for ai, a := range x.Common().Args {
+							if family[a] && writesAmount(callee, ai, 0) {
+								return true
+							}
+						}
+					}
+				}
+				return false
+			}
+			mut := false
+			instrs(f, func(in ssa.Instruction) {
+				if isMut(in) {
+					mut = true
+				}
+			})
+			if !mut {
+				continue
+			}
+			nHolders++
+			c.mpt(mptSpec{
+				rule: "R3", fn: f, events: evSet{},
+				extraEv: func(in ssa.Instruction) string {
+					if isMut(in) {
+						return "mutate"
+					}
+					if cc := callCommon(in); cc != nil && callIs(cc, setPool) && len(cc.Args) == 2 && family[cc.Args[1]] {
+						return "SetPool(held)"
+					}
+					return ""
+				},
+				resets:    map[string][]string{"mutate": {"SetPool(held)"}},
+				atom:      paramAtom("persist"),
+				target:    tgtOkReturn("ok-return"),
+				reqs:      func(string) []string { return []string{"!seen:mutate|seen:SetPool(held)|@persist=F"} },
+				minTarget: 1,
+			})
+		}
+		r.Analysed["pool_holders_that_mutate"] = nHolders
+	}
 }
 
